@@ -77,6 +77,18 @@ func libEncode(p mq.Packet) (out []byte, n int64, err error, pan *mon.Panic) {
 // libRead calls ReadPacket on a contiguous in-memory stream.
 func libRead(frame []byte) mon.ReadResult { return mon.Read(bytes.NewReader(frame)) }
 
+// plainReader has Read and nothing else: no ReadByte, WriteTo, Len or Seek
+// that a library could discover by type assertion (a net.Conn wrapper looks
+// like this; *bytes.Reader does not).
+type plainReader struct{ r io.Reader }
+
+func (p plainReader) Read(b []byte) (int, error) { return p.r.Read(b) }
+
+// libReadPlain reads the frame through a reader that offers only Read.
+func libReadPlain(frame []byte) mon.ReadResult {
+	return mon.Read(plainReader{bytes.NewReader(frame)})
+}
+
 // corpus maps case indices to abstract packets: the deterministic core
 // corpus first, then nHuge four-byte-remaining-length packets, then seeded
 // random packets.
